@@ -21,6 +21,7 @@ def Instr.writes : Instr → Nat → Prop
   | .pop a _ d, b => a = b ∨ d = .arg b
   | .swap a _ _, b => a = b
   | .fresh _ d, b => d = .arg b
+  | .shift a _, b => a = b
 
 /-- the instruction copy-constructs from an element of argument `b` -/
 def Instr.copiesFrom : Instr → Nat → Prop
@@ -32,6 +33,7 @@ def Instr.uses : Instr → Nat → Nat → Prop
   | .xfer a i _ _, b, j => a = b ∧ i = j
   | .derive a i _ _, b, j => a = b ∧ i = j
   | .read a i, b, j => a = b ∧ i = j
+  | .shift a i, b, j => a = b ∧ i = j
   | .pop a i _, b, j => a = b ∧ i = j
   | .swap a i i', b, j => a = b ∧ (i = j ∨ i' = j)
   | .steal _ _, _, _ => False
@@ -220,6 +222,11 @@ theorem step_args_untouched (st : St) (x : Instr) (b : Nat) (h : ¬ x.writes b) 
     simp only [Instr.writes] at h
     simp only [step]
     rw [put_args_getElem? _ _ _ _ h]
+  | shift a i =>
+    simp only [step]
+    split
+    · rfl
+    · simp [noteRam_args]
 
 theorem run_args_untouched (p : List Instr) (st : St) (b : Nat) (h : ∀ x ∈ p, ¬ x.writes b) :
     (run p st).args[b]? = st.args[b]? := by
